@@ -54,6 +54,7 @@ type AbsState struct {
 	MaxVals   int64      `json:"maxVals"`   // pos/MaxValidators as stored
 	MinStake  int64      `json:"minStake"`  // pos/StakeMinimum as stored
 	DenomAlt  bool       `json:"denomAlt"`  // pos/StakeDenom is no longer the default denomination
+	AccEx     []bool     `json:"accex"`     // per id 1..N+4: an account record exists in the auth store
 	PosmAcc   string     `json:"posmAcc"`   // what sits at the pos module account's address: none / plain / module
 	Anomalies []string   `json:"anomalies"` // things the abstraction cannot represent (unknown addresses, foreign denoms …)
 }
@@ -83,7 +84,7 @@ func (a *App) Project() (s AbsState) {
 		}
 	}()
 	s = AbsState{Bal: make([]int64, n+6), Val: make([]AbsVal, n), Prev: make([]int64, n), Sinfo: make([]AbsInfo, n),
-		Bits: make([][]int64, n), AwardQ: make([]int64, n+6), BurnQ: make([]string, n), Pidx: [][2]int64{}, Uq: []UqEntry{}, Pkrel: []int{}, Anomalies: []string{}}
+		Bits: make([][]int64, n), AwardQ: make([]int64, n+6), BurnQ: make([]string, n), Pidx: [][2]int64{}, Uq: []UqEntry{}, Pkrel: []int{}, Anomalies: []string{}, AccEx: make([]bool, n+4)}
 	for i := range s.Prev {
 		s.Prev[i] = -1
 		s.Bits[i] = []int64{}
@@ -249,6 +250,9 @@ func (a *App) Project() (s AbsState) {
 	s.MaxVals = int64(a.PK.MaxValidators(ctx))
 	s.MinStake = a.PK.MinimumStake(ctx)
 	s.DenomAlt = a.PK.StakeDenom(ctx) != sdk.DefaultStakeDenom
+	for id := 1; id <= n+4; id++ {
+		s.AccEx[id-1] = a.AK.GetAccount(ctx, a.Addr(id)) != nil
+	}
 	s.PosmAcc = "none"
 	if acc := a.AK.GetAccount(ctx, a.ModAddr[postypes.ModuleName]); acc != nil {
 		s.PosmAcc = "plain"
